@@ -10,6 +10,7 @@ violation.
 """
 import copy
 import json
+import math
 import os
 import warnings
 
@@ -42,6 +43,19 @@ ASSUMPTIONS = ["'constructor-visible attribute' = parameter of the public constr
 OMIT = "<omit>"          # token value: do not pass the parameter(s) at all (constructor default)
 _TABLE = None
 
+# ---- the lattice motion of the history dimension (applied by the harness to RAW values, never by the library) ------
+TX, TY = 7.0, 11.0                     # integer translation; keeps every moved coordinate away from 0 (no -0.0 noise)
+QUARTER = math.pi / 2                  # quarter turn:  p -> R(pi/2) (p + t) = (-(y + TY), x + TX)
+Z3 = 5.0                               # third coordinate of the 3-d variants (convert_to_2d)
+_MOT = ["id"]                          # motion mark under which raw spatial values are currently produced
+
+
+class _Dflt:
+    """token "d" of a group whose default is itself spatial (Rectangle.center = origin): omitted when nothing
+    moves, otherwise the explicit moved default"""
+    def __init__(self, f):
+        self.f = f
+
 
 class _Cls:
     def __init__(self, name, ctor, build, params_of, sig_params):
@@ -49,6 +63,7 @@ class _Cls:
         self.groups = {}              # group -> {token: thunk returning {param: value} or OMIT}
         self.params_of = params_of    # group -> [constructor parameter names] ([] for content groups)
         self.sig_params = sig_params  # callable returning the real parameter names, or None (free **kwargs)
+        self.setters = {}             # group -> custom in-place mutator f(x, a, b, kw_of_b) (default: setattr)
 
 
 def _val(v):
@@ -90,10 +105,11 @@ def _build_table():
                     if n != "self" and p.kind not in (p.VAR_KEYWORD, p.VAR_POSITIONAL)]
         return f
 
-    def add(name, ctor, groups, build=None, sig_params="ctor"):
+    def add(name, ctor, groups, build=None, sig_params="ctor", setters=None):
         """groups: list of (group, params, {token: value-or-thunk}); a value for a single-param group is the
         parameter value, for a joint group a dict param -> value; OMIT leaves the parameter(s) out."""
         c = _Cls(name, ctor, build or (lambda kw: ctor(**kw)), {}, sig_of(ctor) if sig_params == "ctor" else sig_params)
+        c.setters = dict(setters or {})
         for g, params, toks in groups:
             c.params_of[g] = list(params)
             c.groups[g] = {}
@@ -104,6 +120,10 @@ def _build_table():
     def _kw(v, params):
         if isinstance(v, str) and v == OMIT:
             return {}
+        if isinstance(v, _Dflt):
+            if _MOT[0] == "id":
+                return {}
+            v = v.f
         v = _val(v)
         if len(params) == 1:
             return {params[0]: v}
@@ -115,8 +135,31 @@ def _build_table():
     def J(group, params, **toks):      # joint group
         return (group, params, toks)
 
+    # ---- raw spatial values: every point / polyline / angle goes through pt / pts / ang, which apply the motion
+    #      mark under which the enclosing group is being built ("id": as written, "m1": moved, "z3": 3-d) -----------
+    def pt(x, y):
+        if _MOT[0] == "m1":
+            return np.array([-(y + TY), x + TX])
+        if _MOT[0] == "z3":
+            return np.array([x, y, Z3])
+        return np.array([x, y], dtype=float)
+
+    def pts(rows):
+        return np.array([pt(x, y) for x, y in rows])
+
+    def ang(a):
+        return a + QUARTER if _MOT[0] == "m1" else a
+
+    def still(f, *a):
+        """a value the library's translate_rotate leaves alone (shape of a prediction / obstacle: relative)"""
+        old, _MOT[0] = _MOT[0], "id"
+        try:
+            return f(*a)
+        finally:
+            _MOT[0] = old
+
     def arr(*rows):
-        return lambda: np.array(rows, dtype=float) if len(rows) > 1 else np.array(rows[0], dtype=float)
+        return lambda: pts(rows) if len(rows) > 1 else pt(*rows[0])
 
     def real(param, base, default=True):
         d = {"v1": base, "v2": base + EPS}
@@ -156,24 +199,24 @@ def _build_table():
 
     # ---- sub-objects (fresh on every call; k selects a variant) ---------------------------------------------------
     def rect(k=0):
-        return Rectangle(2.0 + (EPS if k == 1 else 0.0), 1.0, np.array([1.0, 2.0]), 0.25)
+        return Rectangle(2.0 + (EPS if k == 1 else 0.0), 1.0, pt(1.0, 2.0), ang(0.25))
 
     def circ(k=0):
-        return Circle(1.5 + (EPS if k == 1 else 0.0), np.array([1.0, 2.0]))
+        return Circle(1.5 + (EPS if k == 1 else 0.0), pt(1.0, 2.0))
 
     def poly(k=0):
-        return Polygon(np.array([[0.0, 0.0], [2.0 + (EPS if k == 1 else 0.0), 0.0], [2.0, 2.0], [0.0, 2.0]]))
+        return Polygon(pts([[0.0, 0.0], [2.0 + (EPS if k == 1 else 0.0), 0.0], [2.0, 2.0], [0.0, 2.0]]))
 
     def ist(k=0, t=0):                 # variants differ in velocity (position sensitivity is tested on the states)
-        return S.InitialState(time_step=t, position=np.array([1.0, 2.0]), orientation=0.5,
+        return S.InitialState(time_step=t, position=pt(1.0, 2.0), orientation=ang(0.5),
                               velocity=3.0 + (EPS if k == 1 else 0.0), acceleration=0.0, yaw_rate=0.0, slip_angle=0.0)
 
     def ks(t, k=0):
-        return S.KSState(time_step=t, position=np.array([1.0 + t, 2.0]), orientation=0.5,
+        return S.KSState(time_step=t, position=pt(1.0 + t, 2.0), orientation=ang(0.5),
                          velocity=3.0 + (EPS if k == 1 else 0.0), steering_angle=0.0)
 
     def pm(t, k=0):
-        return S.PMState(time_step=t, position=np.array([1.0 + t, 2.0]), velocity=3.0 + (EPS if k == 1 else 0.0),
+        return S.PMState(time_step=t, position=pt(1.0 + t, 2.0), velocity=3.0 + (EPS if k == 1 else 0.0),
                          velocity_y=0.0)
 
     def traj(k=0):
@@ -189,7 +232,7 @@ def _build_table():
         return Occupancy(t, rect(k))
 
     def tpred(k=0):
-        return TrajectoryPrediction(traj(k), rect())
+        return TrajectoryPrediction(traj(k), still(rect))
 
     def spred(k=0):
         return SetBasedPrediction(1, [occ(1), occ(2, k)])
@@ -201,7 +244,7 @@ def _build_table():
         return GoalRegion([goal_state(k)])
 
     def stop_line(k=0):
-        return StopLine(np.array([0.0, 0.0]), np.array([0.0, 1.0 + (EPS if k == 1 else 0.0)]), LineMarking.SOLID)
+        return StopLine(pt(0.0, 0.0), pt(0.0, 1.0 + (EPS if k == 1 else 0.0)), LineMarking.SOLID)
 
     def cyc_el(c="RED", d=2):
         return TrafficLightCycleElement(TrafficLightState[c], d)
@@ -234,15 +277,16 @@ def _build_table():
         return ScenarioID(False, "DEU", "Muc", 3 + k, 2, "T", 1)
 
     def lanelet(lid=1, y0=0.0, k=0, **kw):
-        right = np.array([[0.0, y0], [1.0, y0], [2.0, y0]])
-        left = np.array([[0.0, y0 + 1.0], [1.0, y0 + 1.0], [2.0 + (EPS if k == 1 else 0.0), y0 + 1.0]])
-        return Lanelet(left, (left + right) / 2.0, right, lid, **kw)
+        right = [[0.0, y0], [1.0, y0], [2.0, y0]]
+        left = [[0.0, y0 + 1.0], [1.0, y0 + 1.0], [2.0 + (EPS if k == 1 else 0.0), y0 + 1.0]]
+        mid = [[(a[0] + b[0]) / 2.0, (a[1] + b[1]) / 2.0] for a, b in zip(left, right)]
+        return Lanelet(pts(left), pts(mid), pts(right), lid, **kw)
 
     def tsign(sid_=30, k=0):
-        return TrafficSign(sid_, [sign_el(k)], set([1]), np.array([0.0, 0.0]))
+        return TrafficSign(sid_, [sign_el(k)], set([1]), pt(0.0, 0.0))
 
     def tlight(tid=40, k=0):
-        return TrafficLight(tid, np.array([0.0, 1.0]), cycle(k))
+        return TrafficLight(tid, pt(0.0, 1.0), cycle(k))
 
     def inter(xid=50, k=0):
         return Intersection(xid, [incoming(51, k)], set([2]))
@@ -263,20 +307,23 @@ def _build_table():
         return n
 
     def sobst(oid=100, k=0):
-        return StaticObstacle(oid, ObstacleType.PARKED_VEHICLE, rect(k), ist())
+        return StaticObstacle(oid, ObstacleType.PARKED_VEHICLE, still(rect, k), ist())
 
     def dobst(oid=101, k=0):
-        return DynamicObstacle(oid, ObstacleType.CAR, rect(), ist(), tpred(k))
+        return DynamicObstacle(oid, ObstacleType.CAR, still(rect), ist(), tpred(k))
 
     def pproblem(pid=1, k=0):
         return PlanningProblem(pid, ist(k), goal())
 
     # =============================== geometry, intervals ==========================================================
     add("Rectangle", Rectangle, [real("length", 2.0, False), real("width", 1.0, False),
-                                 P("center", d=OMIT, v1=arr([1.0, 2.0]), v2=arr([1.0, 2.0 + EPS])),
-                                 real("orientation", 0.25)])
+                                 P("center", d=_Dflt(lambda: pt(0.0, 0.0)), v1=arr([1.0, 2.0]),
+                                   v2=arr([1.0, 2.0 + EPS])),
+                                 P("orientation", d=_Dflt(lambda: ang(0.0)), v1=lambda: ang(0.25),
+                                   v2=lambda: ang(0.25 + EPS))])
     add("Circle", Circle, [real("radius", 1.5, False),
-                           P("center", d=OMIT, v1=arr([1.0, 2.0]), v2=arr([1.0 + EPS, 2.0]))])
+                           P("center", d=_Dflt(lambda: pt(0.0, 0.0)), v1=arr([1.0, 2.0]),
+                             v2=arr([1.0 + EPS, 2.0]))])
     add("Polygon", Polygon, [P("vertices", v1=arr([0.0, 0.0], [2.0, 0.0], [2.0, 2.0], [0.0, 2.0]),
                                v2=arr([0.0, 0.0], [2.0, 0.0], [2.0, 2.0 + EPS], [0.0, 2.0]),
                                v3=arr([0.0, 0.0], [2.0, 0.0], [2.0, 2.0]))])
@@ -288,7 +335,8 @@ def _build_table():
     # =============================== states =======================================================================
     time_step = P("time_step", d=OMIT, v1=3, v2=4, v3=lambda: Interval(3, 5))
     position = P("position", d=OMIT, v1=arr([1.0, 2.0]), v2=arr([1.0, 2.0 + EPS]), v3=rect)
-    orientation = P("orientation", d=OMIT, v1=0.5, v2=0.5 + EPS, v3=lambda: AngleInterval(0.25, 0.75))
+    orientation = P("orientation", d=OMIT, v1=lambda: ang(0.5), v2=lambda: ang(0.5 + EPS),
+                    v3=lambda: AngleInterval(ang(0.25), ang(0.75)))
     velocity = P("velocity", d=OMIT, v1=3.0, v2=3.0 + EPS, v3=lambda: Interval(3.0, 4.0))
     special = {"time_step": time_step, "position": position, "orientation": orientation, "velocity": velocity}
 
@@ -377,6 +425,13 @@ def _build_table():
 
     def moved(rows):
         return arr(*(rows[:2] + [[rows[2][0], rows[2][1] + EPS]]))
+
+    def set_adjacent(side):           # the properties are called adj_<side> / adj_<side>_same_direction
+        def f(x, a, b, val_of):
+            kw = val_of(b)
+            setattr(x, "adj_" + side, kw["adjacent_" + side])
+            setattr(x, "adj_%s_same_direction" % side, kw["adjacent_%s_same_direction" % side])
+        return f
     add("Lanelet", Lanelet, [
         P("left_vertices", v1=arr(*left), v2=moved(left)), P("center_vertices", v1=arr(*center), v2=moved(center)),
         P("right_vertices", v1=arr(*right), v2=moved(right)), P("lanelet_id", v1=1, v2=2),
@@ -388,7 +443,8 @@ def _build_table():
         P("stop_line", d=OMIT, v1=stop_line, v2=lambda: stop_line(1)),
         enumset("lanelet_type", LaneletType), enumset("user_one_way", RoadUser),
         enumset("user_bidirectional", RoadUser),
-        idset("traffic_signs"), idset("traffic_lights"), idset("adjacent_areas")])
+        idset("traffic_signs"), idset("traffic_lights"), idset("adjacent_areas")],
+        setters={"adjacent_left": set_adjacent("left"), "adjacent_right": set_adjacent("right")})
     add("TrafficSignElement", TrafficSignElement, [
         P("traffic_sign_element_id", v1=TrafficSignIDZamunda.MAX_SPEED, v2=TrafficSignIDZamunda.MIN_SPEED,
           v3=TrafficSignIDUsa.MAX_SPEED),              # same member name, other country enum (Zamunda is Germany)
@@ -405,6 +461,11 @@ def _build_table():
         P("cycle_elements", d=OMIT, v1=lambda: [cyc_el("RED", 2), cyc_el("GREEN", 3)],
           v2=lambda: [cyc_el("RED", 2), cyc_el("GREEN", 4)], v3=lambda: [cyc_el("GREEN", 3), cyc_el("RED", 2)]),
         P("time_offset", d=OMIT, v1=1, v2=2), P("active", d=OMIT, v1=False)])
+    def set_cycle(x, a, b, val_of):   # v1 <-> v2: the cycle setter; v1 <-> v3: the `active` setter
+        if "v3" in (a, b):
+            x.active = (b != "v3")
+        else:
+            x.traffic_light_cycle = val_of(b)["traffic_light_cycle"]
     add("TrafficLight", TrafficLight, [
         P("traffic_light_id", v1=40, v2=41), P("position", v1=arr([0.0, 1.0]), v2=arr([EPS, 1.0])),
         # `active` only exists next to a non-empty cycle (without one the constructor forces it to False): joint group
@@ -414,7 +475,8 @@ def _build_table():
         P("color", d=OMIT, v1=lambda: [TrafficLightState.RED, TrafficLightState.GREEN],
           v2=lambda: [TrafficLightState.RED, TrafficLightState.YELLOW]),
         P("direction", d=OMIT, v1=TrafficLightDirection.LEFT, v2=TrafficLightDirection.RIGHT),
-        P("shape", d=OMIT, v1=rect, v2=lambda: rect(1))])
+        P("shape", d=OMIT, v1=rect, v2=lambda: rect(1))],
+        setters={"traffic_light_cycle": set_cycle})
     add("IntersectionIncomingElement", IntersectionIncomingElement, [
         P("incoming_id", v1=1, v2=2), idset("incoming_lanelets"), idset("successors_right"),
         idset("successors_straight"), idset("successors_left"), P("left_of", d=OMIT, v1=5, v2=6)])
@@ -436,6 +498,18 @@ def _build_table():
         P("date", v1=tm, v2=lambda: tm(1)), P("author", d=OMIT, v1="A", v2="B"),
         P("affiliation", d=OMIT, v1="A", v2="B"), P("source", d=OMIT, v1="A", v2="B"),
         P("licence_name", d=OMIT, v1="MIT", v2="BSD"), P("licence_text", d=OMIT, v1="t1", v2="t2")])
+
+    def content(key, add_one, remove_one):
+        """container content: "d" -> v through the public add_*, v -> "d" through the public remove_*"""
+        def f(x, a, b, val_of):
+            if a == "d":
+                for o in val_of(b)[key]:
+                    add_one(x, o)
+            else:
+                assert b == "d", (a, b)
+                for o in val_of(a)[key]:
+                    remove_one(x, o)
+        return f
 
     def build_network(kw):
         content = {k: kw.pop(k, ()) for k in ("lanelets", "traffic_signs", "traffic_lights", "intersections", "areas")}
@@ -462,7 +536,15 @@ def _build_table():
         ("intersections", [], dict(d=OMIT, v1=lambda: {"intersections": [inter(50)]},
                                    v2=lambda: {"intersections": [inter(50, 1)]})),
         ("areas", [], dict(d=OMIT, v1=lambda: {"areas": [area(60)]}, v2=lambda: {"areas": [area(60, 1)]}))],
-        build=build_network)
+        build=build_network, setters={
+            "lanelets": content("lanelets", lambda n, o: n.add_lanelet(o), lambda n, o: n.remove_lanelet(o.lanelet_id)),
+            "traffic_signs": content("traffic_signs", lambda n, o: n.add_traffic_sign(o, set()),
+                                     lambda n, o: n.remove_traffic_sign(o.traffic_sign_id)),
+            "traffic_lights": content("traffic_lights", lambda n, o: n.add_traffic_light(o, set()),
+                                      lambda n, o: n.remove_traffic_light(o.traffic_light_id)),
+            "intersections": content("intersections", lambda n, o: n.add_intersection(o),
+                                     lambda n, o: n.remove_intersection(o.intersection_id)),
+            "areas": content("areas", lambda n, o: n.add_area(o, set()), lambda n, o: n.remove_area(o.area_id))})
 
     # =============================== planning =====================================================================
     add("GoalRegion", GoalRegion, [
@@ -472,10 +554,14 @@ def _build_table():
           v2=lambda: {0: [1, 2], 1: [4]})])
     add("PlanningProblem", PlanningProblem, [P("planning_problem_id", v1=1, v2=2),
                                              P("initial_state", v1=ist, v2=lambda: ist(1)),
-                                             P("goal_region", v1=goal, v2=lambda: goal(1))])
+                                             P("goal_region", v1=goal, v2=lambda: goal(1))],
+        setters={"goal_region": lambda x, a, b, val_of: setattr(x, "goal", val_of(b)["goal_region"])})
     add("PlanningProblemSet", PlanningProblemSet, [
         P("planning_problem_list", d=OMIT, v1=lambda: [pproblem(1), pproblem(2)],
-          v2=lambda: [pproblem(1), pproblem(2, 1)], v3=lambda: [pproblem(1)])])
+          v2=lambda: [pproblem(1), pproblem(2, 1)], v3=lambda: [pproblem(1)])],
+        # add_planning_problem only: {} -> {1} ("d" -> "v3") and {1} -> {1, 2} ("v3" -> "v1")
+        setters={"planning_problem_list": lambda x, a, b, val_of: x.add_planning_problem(
+            val_of(b)["planning_problem_list"][-1])})
 
     # =============================== scenario meta data, scenario =================================================
     ob, pi = "obstacle_behavior", "prediction_id"
@@ -521,7 +607,9 @@ def _build_table():
         ("obstacles", [], dict(d=OMIT, v1=lambda: {"obstacles": [sobst(100), dobst(101)]},
                                v2=lambda: {"obstacles": [sobst(100), dobst(101, 1)]},
                                v3=lambda: {"obstacles": [sobst(100, 1), dobst(101)]}))],
-        build=build_scenario)
+        build=build_scenario, setters={
+            "obstacles": content("obstacles", lambda sc, o: sc.add_objects(o),
+                                 lambda sc, o: sc.remove_obstacle(sc.obstacle_by_id(o.obstacle_id)))})
     return T
 
 
@@ -534,13 +622,38 @@ def table():
     return _TABLE
 
 
-def build(cls, valuation):
-    """gamma: (class, {group: token}) -> a fresh real object built through the public constructor."""
+def build(cls, valuation, mot="id", moved=()):
+    """gamma: (class, {group: token}, motion mark) -> a fresh real object built through the public constructor.
+    The raw values of the groups in `moved` are produced under the motion mark (moved / 3-d) by the harness."""
     c = table()[cls]
     kw = {}
     for g, tok in valuation.items():
-        kw.update(c.groups[g][tok]())
+        _MOT[0] = mot if g in moved else "id"
+        try:
+            kw.update(c.groups[g][tok]())
+        finally:
+            _MOT[0] = "id"
     return c.build(kw)
+
+
+def mutate(cls, x, xv, yv, mk):
+    """apply the public in-place mutator that leads from valuation xv to yv; returns the object to look at
+    (translate_rotate of shapes and states returns a new object instead of changing the receiver)"""
+    import numpy as np
+    if mk == "move":
+        r = x.translate_rotate(np.array([TX, TY]), QUARTER)
+        return x if r is None else r
+    if mk == "flat":
+        x.convert_to_2d()
+        return x
+    c = table()[cls]
+    (g,) = [h for h in xv if xv[h] != yv[h]]
+    if g in c.setters:
+        c.setters[g](x, xv[g], yv[g], lambda tok: c.groups[g][tok]())
+    else:
+        for param, value in c.groups[g][yv[g]]().items():
+            setattr(x, param, value)
+    return x
 
 
 # ---- keeping the TLA+ table and the Python table in sync -----------------------------------------------------------
@@ -548,6 +661,36 @@ def spec_table(out):
     for p in tlc.printed_tuples(out, "TABLE"):
         return {e["cls"]: {g["g"]: list(g["toks"]) for g in e["groups"]} for e in json.loads(tlc.tla_unquote(p))}
     raise tlc.MachineryError("class table not printed by MC_EqContract:\n" + out[-2000:])
+
+
+def spec_json(out, head):
+    for p in tlc.printed_tuples(out, head):
+        return json.loads(tlc.tla_unquote(p))
+    raise tlc.MachineryError("%s not printed by MC_EqContract:\n%s" % (head, out[-2000:]))
+
+
+def check_mutators(motion, setters, ctx):
+    """the mutators the TLA+ table names must exist on the real classes (else: update the table)"""
+    py = table()
+    for cname, e in sorted(py.items()):
+        for mk, meth in (("move", "translate_rotate"), ("flat", "convert_to_2d")):
+            named, has = bool(motion[cname][mk]), callable(getattr(e.ctor, meth, None))
+            if named and not has:
+                raise tlc.MachineryError("EqContract!%s names %s.%s, which does not exist" %
+                                         ("Moved" if mk == "move" else "Flat", cname, meth))
+            if has and not named and not (cname == "Scenario" and mk == "flat"):
+                ctx.notes.append("SPEC-DRIFT %s: public mutator %s is not in EqContract!%s" %
+                                 (cname, meth, "Moved" if mk == "move" else "Flat"))
+        for g, pairs in setters[cname].items():
+            if not pairs or g in e.setters:
+                continue
+            x = build(cname, {h: "v1" for h in e.groups})
+            for p in e.params_of[g]:
+                prop = getattr(e.ctor, p, None)
+                if isinstance(prop, property) and prop.fset is None or (prop is None and not hasattr(x, p)
+                                                                        and not e.sig_params is None):
+                    raise tlc.MachineryError("EqContract!SetPairs promises a setter for %s.%s, which does not exist"
+                                             % (cname, p))
 
 
 def check_sync(spec, ctx):
@@ -584,6 +727,9 @@ def check_sync(spec, ctx):
 # ---- driver interface ------------------------------------------------------------------------------------------------
 def model_check(ctx):
     ctx.mc("MC_EqContract", "MC_EqContract2.cfg" if ctx.thorough else "MC_EqContract.cfg", coverage=True)
+    # design in which only setters drop the cached comparison key (seeded change C12-2): TLC must find the
+    # warm object that answers with the key of its old position
+    ctx.mc_expect("MC_EqContract", "DEV_EqContract_1.cfg", "InvCurrent")
 
 
 def cases(ctx):
@@ -594,16 +740,28 @@ def cases(ctx):
                         "verdict": "generated %d cases" % len(cs)})
     spec = spec_table(r["out"])
     check_sync(spec, ctx)
+    motion, setters = spec_json(r["out"], "MOTION"), spec_json(r["out"], "SETTERS")
+    check_mutators(motion, setters, ctx)
+    cs += _random_mutations(spec, motion, setters, ctx.rng, 10000 if ctx.thorough else 1000)
+    for c in cs:
+        if c["kind"] == "mutate":
+            c["moved"] = sorted(motion[c["cls"]][c["mk"]]) if c["mk"] in ("move", "flat") else []
     cs += _random_cases(spec, ctx.rng, 15000 if ctx.thorough else 1500)
     seen = set()
     for c in cs:
         key = (c["cls"], tuple(sorted(c["y"].items())))
+        if c["kind"] == "mutate":
+            c["node"] = 0
+            continue
         c["node"] = 0 if key in seen else 1          # node tests once per distinct valuation
         seen.add(key)
     ctx.extra["classes"] = len(spec)
     ctx.extra["groups"] = sum(len(g) for g in spec.values())
     ctx.extra["tokens"] = sum(len(t) for g in spec.values() for t in g.values())
     ctx.extra["distinct_valuations"] = len(seen)
+    ctx.extra["mutation_cases"] = {mk: sum(1 for c in cs if c["kind"] == "mutate" and c["mk"] == mk)
+                                   for mk in ("set", "move", "flat")}
+    ctx.extra["mutators"] = len({(c["cls"], c["grp"]) for c in cs if c["kind"] == "mutate"})
     return cs
 
 
@@ -632,7 +790,31 @@ def _random_cases(spec, rng, n):
     return out
 
 
+def _random_mutations(spec, motion, setters, rng, n):
+    """history cases from arbitrary valuations (TLC: from the seeds / depth-1 nodes)"""
+    out, names = [], sorted(spec)
+    while len(out) < n:
+        cls = rng.choice(names)
+        x = {g: rng.choice(toks) for g, toks in spec[cls].items()}
+        cand = [("set", g, b, name) for g in x for (a, b, name) in setters[cls][g] if a == x[g]]
+        for mk, name in (("move", "translate_rotate"), ("flat", "convert_to_2d")):
+            if any(x[g] != "d" or g in motion[cls]["always"] for g in motion[cls][mk]):
+                cand += [(mk, None, None, name)] * 3
+        if not cand:
+            continue
+        mk, g, b, name = rng.choice(cand)
+        y = dict(x)
+        if mk == "set":
+            y[g] = b
+        out.append({"cls": cls, "x": x, "y": y, "kind": "mutate", "grp": name, "seed": "random", "depth": 0,
+                    "mk": mk, "warm": rng.randint(0, 1)})
+    return out
+
+
 def nontrivial(case):
+    if case["kind"] == "mutate":
+        return (case["cls"], tuple(sorted(case["x"].items())), tuple(sorted(case["y"].items())), case["grp"],
+                case["warm"])
     if case["x"] == case["y"]:
         return None
     return (case["cls"], tuple(sorted(case["x"].items())), tuple(sorted(case["y"].items())), case["kind"])
@@ -665,9 +847,39 @@ def _event(cls, xv, yv, kind, x, y, sig, root=0, ctl=None):
             "hash_x": hx, "hash_y": hy, "hash_equal": int(hx == "ok" and hy == "ok" and vx == vy), "sig": sig}
 
 
+def _execute_mutation(case):
+    """x built at valuation A -> (warm: compared and hashed once) -> changed in place by the public mutator ->
+    compared with FRESH objects built from the raw values of B and of A (the harness moves raw values itself)."""
+    cls, xv, yv, mk, moved = case["cls"], case["x"], case["y"], case["mk"], case.get("moved", [])
+    before, after = ("z3" if mk == "flat" else "id"), ("m1" if mk == "move" else "id")
+    x = build(cls, xv, before, moved)
+    if case["warm"]:
+        twin = build(cls, xv, before, moved)      # an EQUAL object: the comparison runs through every attribute
+        _b(lambda: x == twin)
+        _b(lambda: twin == x)
+        _h(x)
+    try:
+        x = mutate(cls, x, xv, yv, mk)
+        res = "ok"
+    except Exception as ex:
+        res = "exc:" + type(ex).__name__
+    y = build(cls, yv, after, moved)
+    old = build(cls, xv, before, moved)
+    hx, vx = _h(x)
+    hy, vy = _h(y)
+    return {"ev": [{"op": "mut", "cls": cls, "x": xv, "y": yv, "kind": "mutate", "mk": mk, "mut": case["grp"],
+                    "warm": case["warm"], "mut_res": res,
+                    "eq_xy": _b(lambda: x == y), "eq_yx": _b(lambda: y == x), "ne_xy": _b(lambda: x != y),
+                    "stale_eq": _b(lambda: x == old),
+                    "hash_x": hx, "hash_y": hy, "hash_equal": int(hx == "ok" and hy == "ok" and vx == vy),
+                    "sig": "%s.%s%s" % (cls, case["grp"], "" if case["warm"] else "@cold")}]}
+
+
 def execute(case):
     use_repo()
     warnings.simplefilter("ignore")
+    if case["kind"] == "mutate":
+        return _execute_mutation(case)
     cls, xv, yv, kind = case["cls"], case["x"], case["y"], case["kind"]
     sig = "%s.%s" % (cls, case["grp"])
     ev = []
@@ -688,6 +900,17 @@ def corrupt(trace, rng):
     """Flip one logged observation; the trace spec must reject exactly that event."""
     i = rng.randrange(len(trace["ev"]))
     e = trace["ev"][i]
+    if e["op"] == "mut":
+        how = rng.choice(["stale", "fresh", "hash"])
+        if how == "stale":
+            e["stale_eq"] = 1                  # still equal to an object with the old values
+        elif how == "fresh":
+            e["eq_xy"] = 0                     # not equal to a fresh object with the current values
+        else:
+            if e["hash_x"] != "ok" or e["hash_y"] != "ok":
+                return None
+            e["hash_equal"] = 0
+        return trace
     how = rng.choice(["eq", "ne", "hash"])
     if how == "eq":
         e["eq_xy"] = 1 - e["eq_xy"] if e["eq_xy"] in (0, 1) else 0     # breaks symmetry (and sensitivity / equality)
